@@ -21,7 +21,6 @@ import (
 	"os"
 	"os/exec"
 	"path/filepath"
-	"regexp"
 	"strings"
 	"sync"
 	"time"
@@ -61,6 +60,11 @@ func childMain(part string, args []string) {
 		monitorMConn(o)
 	case "admission":
 		monitorAdmission(o)
+	case "hostile": // development aid; the registered run drives this monitor from the parent
+		self, _ := os.Executable()
+		sc := lib.Scratch("C20")
+		monitorHostile(o, self, sc)
+		os.RemoveAll(sc)
 	default:
 		fmt.Fprintln(os.Stderr, "unknown part", part)
 		os.Exit(3)
@@ -124,7 +128,18 @@ func runChild(scratch string, c *childRun) {
 	}
 }
 
-var reGoFrame = regexp.MustCompile(`(?m)^(github\.com/dappledger/AnnChain/[^\s(]+|main\.[^\s(]+)\(`)
+// fnOfTraceLine: "pkg.(*T).Method(0x1, ...)" -> "pkg.(*T).Method" for frames of the code under test / the harness.
+func fnOfTraceLine(l string) string {
+	if !strings.HasPrefix(l, "github.com/dappledger/AnnChain/") && !strings.HasPrefix(l, "main.") {
+		return ""
+	}
+	for i := 0; i < len(l); i++ {
+		if l[i] == '(' && (i+1 >= len(l) || l[i+1] != '*') {
+			return l[:i]
+		}
+	}
+	return ""
+}
 
 // crashSite: first frame of the code under test in a Go panic / fatal trace.
 func crashSite(stderr string) string {
@@ -135,18 +150,16 @@ func crashSite(stderr string) string {
 	if i < 0 {
 		return "no-trace"
 	}
-	tr := stderr[i:]
-	head := tr
-	if k := strings.Index(head, "\n"); k > 0 {
-		head = head[:k]
-	}
-	for _, m := range reGoFrame.FindAllStringSubmatch(tr, -1) {
-		f := m[1]
-		if strings.HasPrefix(f, "github.com/dappledger/AnnChain/gemmill/modules/go-common.Panic") {
+	for _, l := range strings.Split(stderr[i:], "\n") {
+		f := fnOfTraceLine(l)
+		if f == "" || strings.HasPrefix(f, "github.com/dappledger/AnnChain/gemmill/modules/go-common.Panic") {
 			continue
 		}
-		f = strings.TrimPrefix(f, "github.com/dappledger/AnnChain/")
-		return f
+		if k := strings.Index(f, "authByCA"); k >= 0 && strings.HasPrefix(f, "main.") {
+			// the closure is created in a function inlined into the harness; name it by its origin
+			return "gemmill." + f[k:]
+		}
+		return strings.TrimPrefix(f, "github.com/dappledger/AnnChain/")
 	}
 	return "no-frame"
 }
